@@ -334,6 +334,10 @@ theorem truthInv_step (hist : List Ev) (s : S) (e : Ev) (s' : S) (I : TruthInv h
     all_goals first | (simp at h; done) | skip
     all_goals simp only [Option.some.injEq] at h; subst h
     all_goals first | exact truth_keep _ I rfl | exact truth_upd _ I rfl (by intro sl' hsl; cases hsl)
+  | quiescent =>
+    simp only [step] at h; split at h
+    · simp only [Option.some.injEq] at h; subst h; exact truth_keep _ I rfl
+    · simp at h
 
 theorem truthInv_reach {tr : List Ev} {s : S} (h : run init tr = some s) : TruthInv tr s :=
   inv_reach TruthInv truthInv_init truthInv_step tr s h
@@ -497,6 +501,10 @@ theorem kindInv_step (hist : List Ev) (s : S) (e : Ev) (s' : S) (I : KindInv his
     all_goals first
       | exact kind_keep I rfl (by intro _ _ _ h; cases h) slots_upd_none
       | exact kind_keep I rfl (by intro _ _ _ h; cases h) (fun p sl h => ⟨sl, h, rfl, rfl, rfl⟩)
+  | quiescent =>
+    simp only [step] at h; split at h
+    · simp only [Option.some.injEq] at h; subst h; exact kind_keep I rfl (by intro _ _ _ h; cases h) (fun p sl h => ⟨sl, h, rfl, rfl, rfl⟩)
+    · simp at h
 
 theorem kindInv_reach {tr : List Ev} {s : S} (h : run init tr = some s) : KindInv tr s :=
   inv_reach KindInv kindInv_init kindInv_step tr s h
@@ -524,6 +532,97 @@ theorem success_truthful {pre post : List Ev} {op : Nat} {rcs : List Nat} {props
     refine ⟨p, sl.kind, sl.n, ?_, ?_, hT⟩
     · have := hK.slot_kind p sl hsl; rw [hc.1] at this; exact (hK.known_iff _ _ _).1 this
     · exact (hI.slotA p op (by simp [owner, hsl, hc.1])).1
+
+
+/-! ### every operation completes (C05, drain) -/
+
+
+/-- every initiated operation is in the list of operations -/
+def OpsInv (hist : List Ev) (s : S) : Prop := ∀ op k n, Ev.init op k n ∈ hist → op ∈ s.ops
+
+theorem opsInv_step (hist : List Ev) (s : S) (e : Ev) (s' : S) (I : OpsInv hist s) (h : step s e = some s') : OpsInv (hist ++ [e]) s' := by
+  have hmono : (∀ op, op ∈ s.ops → op ∈ s'.ops) ∧ (∀ op k n, e = .init op k n → op ∈ s'.ops) := by
+    cases e with
+    | init op k n =>
+      simp only [step] at h; split at h
+      · simp at h
+      · simp only [Option.some.injEq] at h; subst h
+        exact ⟨fun o ho => List.mem_cons_of_mem _ ho, by intro o k' n' he; cases he; simp⟩
+    | pk p =>
+      simp only [step] at h; split at h
+      · have : s'.ops = s.ops := by
+          rcases stepPk_spec h with ⟨op, q, pid, dup, body, k, rfl, _, s1, hr, ha⟩ | ⟨op, pid, body, rfl, hr⟩ | ⟨op, pid, body, rfl, hr⟩ | ⟨pid, sl, rfl, hs, hk, hph, rfl⟩ | ⟨rfl, rfl⟩
+          · have h1 : s1.ops = s.ops := by
+              obtain ⟨_, _, n, _, hc | ⟨sl, _, _, _, _, _, rfl⟩⟩ := request_spec hr
+              · obtain ⟨_, _, _, rfl⟩ := hc; rfl
+              · rfl
+            rcases account_spec ha with ⟨_, rfl⟩ | ⟨_, _, rfl⟩ | ⟨_, _, _, rfl⟩ <;> exact h1
+          · obtain ⟨_, _, n, _, hc | ⟨sl, _, _, _, _, _, rfl⟩⟩ := request_spec hr
+            · obtain ⟨_, _, _, rfl⟩ := hc; rfl
+            · rfl
+          · obtain ⟨_, _, n, _, hc | ⟨sl, _, _, _, _, _, rfl⟩⟩ := request_spec hr
+            · obtain ⟨_, _, _, rfl⟩ := hc; rfl
+            · rfl
+          · rfl
+          · rfl
+        exact ⟨fun o ho => this ▸ ho, by intro o k n he; cases he⟩
+      · simp at h
+    | connUp rm => simp only [step, Option.some.injEq] at h; subst h; exact ⟨fun _ ho => ho, by intro o k n he; cases he⟩
+    | connDown => simp only [step, Option.some.injEq] at h; subst h; exact ⟨fun _ ho => ho, by intro o k n he; cases he⟩
+    | rx a => simp only [step, Option.some.injEq] at h; subst h; exact ⟨fun _ ho => ho, by intro o k n he; cases he⟩
+    | wr =>
+      simp only [step] at h; split at h
+      · simp at h
+      · simp only [Option.some.injEq] at h; subst h; exact ⟨fun _ ho => ho, by intro o k n he; cases he⟩
+    | wrOk =>
+      simp only [step] at h; split at h
+      · simp only [Option.some.injEq] at h; subst h; exact ⟨fun _ ho => ho, by intro o k n he; cases he⟩
+      · simp at h
+    | wrFail =>
+      simp only [step] at h; split at h
+      · simp only [Option.some.injEq] at h; subst h; exact ⟨fun _ ho => ho, by intro o k n he; cases he⟩
+      · simp at h
+    | quiescent =>
+      simp only [step] at h; split at h
+      · simp only [Option.some.injEq] at h; subst h; exact ⟨fun _ ho => ho, by intro o k n he; cases he⟩
+      · simp at h
+    | doneOk op rcs props =>
+      simp only [step] at h
+      repeat' split at h
+      all_goals first | (simp at h; done) | skip
+      simp only [Option.some.injEq] at h; subst h; exact ⟨fun _ ho => ho, by intro o k n he; cases he⟩
+    | doneOther op =>
+      simp only [step] at h
+      repeat' split at h
+      all_goals first | (simp at h; done) | skip
+      all_goals simp only [Option.some.injEq] at h; subst h
+      all_goals exact ⟨fun _ ho => ho, by intro o k n he; cases he⟩
+  intro op k n hm
+  simp only [List.mem_append, List.mem_singleton] at hm
+  rcases hm with hm | hm
+  · exact hmono.1 op (I op k n hm)
+  · exact hmono.2 op k n hm.symm
+
+theorem opsInv_reach {tr : List Ev} {s : S} (h : run init tr = some s) : OpsInv tr s :=
+  inv_reach OpsInv (by intro op k n h; simp at h) opsInv_step tr s h
+
+/-- **C05 (drain) on accepted event lists**: when the client has been cancelled (or a disconnect has finished) and the execution context has
+run out of work — the `quiescent` event — every operation initiated before has completed -/
+theorem all_completed_at_quiescence {pre post : List Ev} (hacc : accepts (pre ++ .quiescent :: post) = true) {op : Nat} {k : Kind} {n : Nat}
+    (hi : Ev.init op k n ∈ pre) : doneIn pre op := by
+  obtain ⟨s, hr⟩ := (accepts_iff _).1 hacc
+  obtain ⟨s1, hr1, hr2⟩ := run_prefix hr
+  have hops := opsInv_reach hr1 op k n hi
+  have II := idInv_reach hr1
+  simp only [run] at hr2
+  cases hs : step s1 .quiescent with
+  | none => simp [hs] at hr2
+  | some s2 =>
+    simp only [step] at hs; split at hs
+    · rename_i hall
+      rw [List.all_eq_true] at hall
+      exact (II.done_iff op).1 (hall op hops)
+    · simp at hs
 
 
 end Mqtt5V.Proofs.Trace
